@@ -259,14 +259,14 @@ VARIANTS = [("async", "none"), ("sync", "none"), ("async_ot", "none"), ("async_o
 QUERY = "query Q($a: X, $b: X) { f(a: $a, b: $b) }"
 
 
-def run_variant(kind, tv, vspec, kwargs, opname="Q", calls=1):
+def run_variant(kind, tv, vspec, kwargs, opname="Q", calls=1, status=200):
     cls = clients.bundled_class(kind)
     is_async = clients.BUNDLED[kind][2]
     captured = []
 
     def handler(request):
         captured.append(parse_request(request))
-        return httpx.Response(200, json={"data": {"ok": True}})
+        return httpx.Response(status, json={"data": {"ok": True}})
 
     c = clients.make_client(cls, is_async, handler, **clients.tracer_kwargs(kind, tv))
     ctx = Ctx()
@@ -279,7 +279,11 @@ def run_variant(kind, tv, vspec, kwargs, opname="Q", calls=1):
                 resp = clients.call(is_async, c.execute, QUERY, variables=variables, **kwargs)
             else:
                 resp = clients.call(is_async, c.execute, QUERY, opname, variables, **kwargs)
-            outcome = ("ok", resp.status_code)
+            try:
+                gd = ("data", c.get_data(resp))
+            except BaseException as e2:  # noqa
+                gd = ("raises", type(e2).__name__)
+            outcome = ("ok", resp.status_code, gd)
         except BaseException as e:  # noqa
             outcome = ("exc", type(e).__name__)
             break
@@ -288,14 +292,14 @@ def run_variant(kind, tv, vspec, kwargs, opname="Q", calls=1):
     return captured, outcome, mutated
 
 
-def check_tree(vspec, kwargs, kname, opname="Q", calls=1):
+def check_tree(vspec, kwargs, kname, opname="Q", calls=1, status=200):
     """Returns (problems, tags)."""
     problems = []
     ref_vars, uploads, flags = reference(vspec)
     results = {}
     want_opname = None if opname in (None, "<omitted>") else opname
     for kind, tv in VARIANTS:
-        captured, outcome, mutated = run_variant(kind, tv, vspec, kwargs, opname, calls)
+        captured, outcome, mutated = run_variant(kind, tv, vspec, kwargs, opname, calls, status)
         results[(kind, tv)] = (captured, outcome)
         if mutated:
             INFO["client_attributes_rebound_by_execute"] = sorted(set(INFO.get("client_attributes_rebound_by_execute", [])) | set(mutated))
@@ -632,6 +636,14 @@ def main(tier):
             problems, flags = check_tree(vspec, kw, kname)
             for clause, detail in problems:
                 rep.violation(clause, feats | {f"kwargs:{kname}"}, detail, {"variables": vspec, "kwargs": kw})
+            if kname == "none" and size_total(vspec) <= 2:
+                # outcomes (status handed back, what get_data makes of it) must agree across the clients for every status class
+                for stc in (100, 204, 301, 302, 404, 500):
+                    evaluations += len(VARIANTS)
+                    problems, flags = check_tree(vspec, kw, kname, status=stc)
+                    for clause, detail in problems:
+                        if clause == "clients_disagree":
+                            rep.violation(clause, feats | {f"status:{stc}"}, detail, {"variables": vspec, "kwargs": kw, "status": stc})
             if kname == "none" and size_total(vspec) <= (3 if tier == "quick" else 4):
                 for opn, cl in ((None, 1), ("<omitted>", 1), ("Q", 2)):
                     evaluations += len(VARIANTS) * cl
